@@ -80,10 +80,13 @@ def stream_bodies(kind):
         framings = [("std", None)]
         if kind == "event-stream":
             framings = [("std", (b"data: ", b"\n\n")), ("nospace", (b"data:", b"\n\n")), ("crlf", (b"data: ", b"\r\n\r\n")),
-                        ("comment+id", (b": keep-alive\nid: 1\ndata: ", b"\n\n"))]
+                        ("comment+id", (b": keep-alive\nid: 1\ndata: ", b"\n\n")),
+                        ("no-final-blank", (b"data: ", b"\n\n"))]   # the server closes right after the last field line
         for fname, fr in framings:
             if kind == "event-stream":
                 data = b"".join(fr[0] + json.dumps(x).encode() + fr[1] for x in items)
+                if fname == "no-final-blank":
+                    data = data[:-1]
                 ctype = "text/event-stream"
             else:
                 data = b"".join(json.dumps(x).encode() + b"\n" for x in items)
